@@ -1780,3 +1780,110 @@ fn analyze_type(
 		}
 	}
 }
+
+/// Verification hooks: one containment step and the container depth
+/// computation, run on an analyzer state that is given explicitly.
+#[cfg(feature = "verif")]
+pub mod verif_hooks
+{
+	use super::*;
+
+	pub struct ContainerState
+	{
+		pub id: u32,
+		pub contained_ids: Vec<u32>,
+		pub is_structure: bool,
+		pub depth: Option<Result<u32, ()>>,
+	}
+
+	fn identifier(id: u32) -> Identifier
+	{
+		Identifier {
+			name: format!("c{}", id),
+			location: Location {
+				source_filename: String::new(),
+				span: 0..0,
+				line_number: 1,
+				line_offset: 1,
+			},
+			resolution_id: id,
+			is_authoritative: true,
+		}
+	}
+
+	fn build(containers: &[ContainerState]) -> Analyzer
+	{
+		Analyzer {
+			variable_stack: vec![Vec::new()],
+			function_list: Vec::new(),
+			containers: containers
+				.iter()
+				.map(|x| Container {
+					identifier: identifier(x.id),
+					contained_ids: x.contained_ids.iter().cloned().collect(),
+					depth: match &x.depth
+					{
+						Some(Ok(depth)) => Some(Ok(*depth)),
+						Some(Err(())) => Some(Err(Poison::Poisoned)),
+						None => None,
+					},
+					is_structure: x.is_structure,
+				})
+				.collect(),
+			unresolved_labels: std::collections::HashMap::new(),
+			pruned_variables: std::collections::HashMap::new(),
+			poisoned_variables: std::collections::HashSet::new(),
+			in_constexpr_of_constant: None,
+			resolution_id: 1,
+		}
+	}
+
+	fn observe(analyzer: Analyzer) -> Vec<ContainerState>
+	{
+		analyzer
+			.containers
+			.into_iter()
+			.map(|x| {
+				let mut contained_ids: Vec<u32> =
+					x.contained_ids.into_iter().collect();
+				contained_ids.sort();
+				ContainerState {
+					id: x.identifier.resolution_id,
+					contained_ids,
+					is_structure: x.is_structure,
+					depth: x.depth.map(|depth| depth.map_err(|_| ())),
+				}
+			})
+			.collect()
+	}
+
+	pub fn container_step(
+		containers: &[ContainerState],
+		container_id: u32,
+		with_member: bool,
+		contained_type: ValueType,
+	) -> (Result<ValueType, Option<Error>>, Vec<ContainerState>)
+	{
+		let mut analyzer = build(containers);
+		let name_of_container = identifier(container_id);
+		let name_of_member = identifier(0);
+		let member = if with_member { Some(&name_of_member) } else { None };
+		let result = analyzer
+			.found_container(&name_of_container, member, Ok(contained_type))
+			.map_err(|poison| match poison
+			{
+				Poison::Error(error) => Some(error),
+				Poison::Poisoned => None,
+			});
+		(result, observe(analyzer))
+	}
+
+	pub fn container_depths(
+		containers: &[ContainerState],
+	) -> Vec<ContainerState>
+	{
+		let mut analyzer = build(containers);
+		analyzer.determine_container_depths();
+		observe(analyzer)
+	}
+}
